@@ -13,7 +13,10 @@ def hexList (ls : List (List UInt8)) : String := ",".intercalate (ls.map hexOfBy
 /-- records:
  `strip.json <kind> <s>  | <payload>`            payload after the key of the returned line
  `strip.svg <s>          | <payload>`
- `strip.field <kind> <s> | <lines(s)>;<lines(flat s)>`  (each a comma-separated hex list) -/
+ `strip.field <kind> <s> | <lines(s)>;<lines(flat s)>`  (each a comma-separated hex list; `<kind>` = one message
+                          kind or several joined by `+` = a multi-message call of one encoder)
+ `strip.wire <writer> <text>* | <received>;<produced>`  lines a scripted ASCII panel received through the writer
+                          against the encoder's strings for the same messages (model of a faithful writer: the same) -/
 def step (cmd : String) (args : List String) (impl : String) : String :=
   match cmd, args with
   | "strip.json", [_, s] =>
@@ -41,6 +44,15 @@ def step (cmd : String) (args : List String) (impl : String) : String :=
         let m := outFlat.map singleLine
         let h := match Spec.Strip.checkField outS outFlat with | none => "H1" | some c => s!"H0:{c}"
         if m = outS then s!"EQ {h}" else s!"NE {h} {hexList m}"
+      | _, _ => "NE H0:panic -"
+    | _ => "NE H0:panic -"
+  | "strip.wire", _ :: _ =>
+    match impl.splitOn ";" with
+    | [a, b] =>
+      match unhexList a, unhexList b with
+      | some received, some produced =>
+        let h := match Spec.Strip.checkWire received produced with | none => "H1" | some c => s!"H0:{c}"
+        if received = produced then s!"EQ {h}" else s!"NE {h} {hexList produced}"
       | _, _ => "NE H0:panic -"
     | _ => "NE H0:panic -"
   | _, _ => "ERR bad-record"
